@@ -77,6 +77,23 @@ func init() {
 			[]string{"IsActive", "IsDoNotDisruptActive"})
 		g.callSeq(c07Group, "pkg/controllers/nodeclaim/disruption", "Consolidation.Reconcile", "consolidatableCalls",
 			[]string{"Clear", "IsUnderConsolidateAfter", "SetTrue"})
+		// what a method looks at again between the listing of its candidates and its command (the pass is not atomic)
+		g.callSeq(c07Group, "pkg/controllers/disruption", "Drift.ComputeCommands", "driftComputeCalls",
+			[]string{"SimulateScheduling", "Deleting", "MarkedForDeletion", "IsValid", "Validate"})
+		g.callSeq(c07Group, "pkg/controllers/disruption", "StaticDrift.ComputeCommands", "staticDriftComputeCalls",
+			[]string{"SimulateScheduling", "Deleting", "MarkedForDeletion", "Deleted", "IsValid", "Validate"})
+		g.callSeq(c07Group, "pkg/controllers/disruption", "consolidation.computeConsolidation", "computeConsolidationCalls",
+			[]string{"SimulateScheduling"})
+		g.callSeq(c07Group, "pkg/controllers/disruption", "SingleNodeConsolidation.ComputeCommands", "singleComputeCalls",
+			[]string{"computeConsolidation", "Validate"})
+		g.callSeq(c07Group, "pkg/controllers/disruption", "MultiNodeConsolidation.firstNConsolidationOption", "multiOptionCalls",
+			[]string{"computeConsolidation"})
+		g.callSeq(c07Group, "pkg/controllers/disruption", "MultiNodeConsolidation.ComputeCommands", "multiComputeCalls",
+			[]string{"firstNConsolidationOption", "Validate"})
+		g.callSeq(c07Group, "pkg/controllers/disruption", "Emptiness.ComputeCommands", "emptinessComputeCalls",
+			[]string{"SimulateScheduling", "Validate"})
+		g.callSeq(c07Group, "pkg/controllers/disruption", "SimulateScheduling", "simulateSchedulingCalls",
+			[]string{"DeepCopyNodes", "Deleting", "Active", "GetPendingPods", "NewScheduler", "Solve"})
 		c07SubReconcilers(g)
 	})
 }
